@@ -160,6 +160,120 @@ pub fn completion_inputs(rng: &mut Rng, program: &asp::Program) -> Vec<fol::Pred
     inputs.into_iter().collect::<IndexSet<_>>().into_iter().collect()
 }
 
+/// small arithmetic-free programs: p, q, r can be defined, s only occurs in bodies (an input)
+pub fn small_program(rng: &mut Rng) -> asp::Program {
+    let (preds, head_preds): (&[(&str, usize)], &[(&str, usize)]) = if rng.chance(50) {
+        (&[("p", 1), ("q", 1), ("r", 0), ("s", 1)], &[("p", 1), ("q", 1), ("r", 0)])
+    } else {
+        (&[("p", 0), ("q", 1), ("r", 0), ("s", 0), ("s", 1)], &[("p", 0), ("q", 1), ("r", 0)])
+    };
+    let c = t::PCfg { preds, head_preds, vars: &["X", "Y"], syms: &["a", "b"], arith: false, max_rules: 4, max_body: 2, choice: true, constraints: true };
+    t::p_program(rng, &c)
+}
+pub fn small_inputs(rng: &mut Rng, program: &asp::Program) -> Vec<fol::Predicate> {
+    let heads = program.head_predicates();
+    let body_only: Vec<fol::Predicate> =
+        program.predicates().iter().filter(|p| !heads.contains(*p)).map(xc::fol_pred).collect();
+    let mut inputs = xc::random_subset(rng, &body_only, 70);
+    if rng.chance(10) {
+        inputs.push(fol::Predicate { symbol: "s".into(), arity: 1 });
+    }
+    inputs.into_iter().collect::<IndexSet<_>>().into_iter().collect()
+}
+
+/// a stratified arithmetic-free program: rules for the predicates of `order` (privates first,
+/// then outputs) whose bodies mention only inputs and predicates earlier in the order (any sign):
+/// tight, no private recursion; choice heads only for the last predicate
+fn small_stratified(rng: &mut Rng, inputs: &[(&'static str, usize)], order: &[(&'static str, usize)]) -> asp::Program {
+    let mut rules = vec![];
+    let mut avail: Vec<(&str, usize)> = inputs.to_vec();
+    for (i, h) in order.iter().enumerate() {
+        let heads = [*h];
+        let n = if rng.chance(10) { 0 } else { 1 + rng.below(2) };
+        for _ in 0..n {
+            let c = t::PCfg {
+                preds: &avail,
+                head_preds: &heads,
+                vars: &["X", "Y"],
+                syms: &["a", "b"],
+                arith: false,
+                max_rules: 1,
+                max_body: 2,
+                choice: i + 1 == order.len(),
+                constraints: false,
+            };
+            rules.push(t::p_rule(rng, &c));
+        }
+        avail.push(*h);
+    }
+    if rng.chance(25) {
+        let c = t::PCfg { preds: &avail, head_preds: &avail, vars: &["X", "Y"], syms: &["a", "b"], arith: false, max_rules: 1, max_body: 2, choice: false, constraints: true };
+        rules.push(asp::Rule { head: asp::Head::Falsity, body: t::p_body(rng, &c) });
+    }
+    asp::Program { rules }
+}
+
+/// small accepted program-vs-program tasks (no placeholders, no outline, arithmetic-free, tight,
+/// shared private predicate q/1 that gets renamed): the fragment on which `sem_c02_behaviour`
+/// evaluates the statement of C02 exhaustively over a finite window
+pub fn small_task(rng: &mut Rng) -> ExternalEquivalenceTask {
+    let inputs: &[(&'static str, usize)] = if rng.chance(70) { &[("in", 1)] } else { &[("in", 1), ("in2", 0)] };
+    let outputs: &[(&'static str, usize)] = if rng.chance(60) { &[("out", 1)] } else { &[("out2", 0), ("out", 1)] };
+    let priv_l: &[(&'static str, usize)] = *rng.pick(&[&[][..], &[("q", 1)][..], &[("q", 1)][..], &[("r", 0), ("q", 1)][..]]);
+    let priv_r: &[(&'static str, usize)] = *rng.pick(&[&[][..], &[("q", 1)][..], &[("q", 1)][..], &[("q", 1), ("s", 1)][..]]);
+    let side = |rng: &mut Rng, privs: &[(&'static str, usize)]| {
+        let mut order: Vec<(&'static str, usize)> = privs.to_vec();
+        order.extend(outputs.iter().cloned());
+        small_stratified(rng, inputs, &order)
+    };
+    let left = side(rng, priv_l);
+    let right = match rng.below(4) {
+        0 => left.clone(),
+        1 => {
+            // a variant of the specification program: one rule replaced or dropped
+            let mut r = left.clone();
+            if r.rules.len() > 1 {
+                let k = rng.below(r.rules.len());
+                r.rules.remove(k);
+            }
+            r
+        }
+        _ => side(rng, priv_r),
+    };
+    let mut entries = vec![];
+    for (p, n) in inputs {
+        entries.push(fol::UserGuideEntry::InputPredicate(fol::Predicate { symbol: p.to_string(), arity: *n }));
+    }
+    for (p, n) in outputs {
+        entries.push(fol::UserGuideEntry::OutputPredicate(fol::Predicate { symbol: p.to_string(), arity: *n }));
+    }
+    if rng.chance(25) {
+        // assumption: not in(a)
+        let atom = fol::Formula::AtomicFormula(fol::AtomicFormula::Atom(fol::Atom {
+            predicate_symbol: "in".into(),
+            terms: vec![fol::GeneralTerm::SymbolicTerm(fol::SymbolicTerm::Symbol("a".into()))],
+        }));
+        entries.push(fol::UserGuideEntry::AnnotatedFormula(fol::AnnotatedFormula {
+            role: fol::Role::Assumption,
+            direction: fol::Direction::Universal,
+            name: "no_a".into(),
+            formula: fol::Formula::UnaryFormula { connective: fol::UnaryConnective::Negation, formula: Box::new(atom) },
+        }));
+    }
+    ExternalEquivalenceTask {
+        specification: Either::Left(left),
+        program: right,
+        user_guide: fol::UserGuide { entries },
+        proof_outline: fol::Specification { formulas: vec![] },
+        decomposition: if rng.chance(50) { Decomposition::Independent } else { Decomposition::Sequential },
+        direction: t::direction(rng),
+        formula_representation: FormulaRepresentation::TauStar,
+        bypass_tightness: false,
+        simplify: rng.chance(60),
+        break_equivalences: rng.chance(50),
+    }
+}
+
 /// an external task around programs of the tau* grammar (arbitrary terms, all signs, choice
 /// heads, constraints): everything public unless `private_pct` says otherwise
 pub fn adversarial_task(rng: &mut Rng) -> ExternalEquivalenceTask {
